@@ -58,6 +58,16 @@ def product_unit(tier):
             exp = "types<%s>" % ", ".join("types<%s>" % ", ".join("e<%d, %d>" % (i, c[i]) for i in range(k)) for c in combo_list(lens))
             u.add("product|%s" % "x".join(map(str, lens)), "product of lists of lengths %s is the row-major Cartesian product" % (lens,),
                   "static_assert(std::is_same_v<product<%s>, %s>);" % (lists, exp))
+    # the lists are sequences: an element named twice (lists assembled with mp_append) is two positions of the product
+    for name, seqs in (("rep-first", [[0, 1, 0], [0, 1]]), ("rep-second", [[0, 1], [1, 1]]), ("rep-both", [[0, 0], [2, 0, 2]]), ("rep-single", [[0, 0, 1, 0]]), ("same-in-two", None)):
+        if seqs is None:
+            u.add("product|same-in-two", "a type that occurs in two different lists is paired with itself",
+                  "static_assert(std::is_same_v<product<types<e<0, 0>, e<0, 1>>, types<e<0, 0>, e<0, 1>>>, types<types<e<0, 0>, e<0, 0>>, types<e<0, 0>, e<0, 1>>, types<e<0, 1>, e<0, 0>>, types<e<0, 1>, e<0, 1>>>>);")
+            continue
+        lists = ", ".join("types<%s>" % ", ".join("e<%d, %d>" % (i, x) for x in sq) for i, sq in enumerate(seqs))
+        exp = "types<%s>" % ", ".join("types<%s>" % ", ".join("e<%d, %d>" % (i, x) for i, x in enumerate(c)) for c in itertools.product(*seqs))
+        u.add("product|%s" % name, "a list that names an element twice contributes both positions (%s)" % (seqs,),
+              "static_assert(std::is_same_v<product<%s>, %s>);" % (lists, exp))
     # apply_product: templates first, then combos
     for lens in ([1], [2], [2, 2], [3, 2], [0, 2], [2, 3, 2]):
         lists = ", ".join(lst(i, n) for i, n in enumerate(lens))
